@@ -162,6 +162,13 @@ Definition viewer_cli_report (unit u : Q) (z t m : bool) (E : env) (st : stats) 
 Definition kernprof_view_report (unit u : Q) (z : bool) (E : env) (st : stats) : report :=
   show_text_py unit (Some u) E (mkOpts z false false true) st.
 
+(* `LineProfiler.print_stats(output_unit, stripzeros, details, summarize, sort)`: show_text on the
+   LineStats that get_stats() returns - its timings AND its unit (not the resolution of the
+   profiler's own clock): a subclass may serve merged, rescaled or loaded statistics *)
+Record linestats := mkLineStats { ls_timings : stats; ls_unit : Q }.
+Definition print_stats_report (ls : linestats) (output_unit : option Q) (o : options) (E : env) : report :=
+  show_text_py (ls_unit ls) output_unit E o (ls_timings ls).
+
 (* ---- reading a printed number back ------------------------------------------------ *)
 (* a printed cell is  [spaces] digits [ "." digits ] [ "e" ("+"|"-") digits ];
    parse_dec gives (M, E, nd) with value M * 10^E, nd = number of mantissa digits printed *)
